@@ -137,9 +137,9 @@ Inductive case :=
 (* a history of Matcher()/Close() calls on one sync.Pool with the buffer ids seen, and the
    ids drained from the pool at the end (sorted) *)
 | CShard (ops : list mop) (drained : list N)
-(* one Series request through the real ProxyStore over that many stores (sharded or not),
-   run to the end; whether some buffer then comes out of the proxy's pool twice *)
-| CProxy (nstores : nat) (sharded : bool) (dup : bool).
+(* [reqs] concurrent Series requests through one real ProxyStore over [nstores] stores, the first
+   [nfail] of which refuse the stream; whether afterwards some buffer comes out of the proxy's pool twice *)
+| CProxy (reqs nstores nfail : nat) (sharded : bool) (dup : bool).
 
 Definition pobs_eqb (a b : pobs) : bool :=
   Bool.eqb (fst (fst a)) (fst (fst b)) && (snd (fst a) =? snd (fst b)) && (snd a =? snd b).
@@ -157,14 +157,94 @@ Fixpoint nodup_n (l : list N) : bool :=
   | a :: r => negb (existsb (N.eqb a) r) && nodup_n r
   end.
 
-(* what the request does to the buffers: one matcher per store, each closed twice (by the
-   loser tree when its stream is exhausted and by the deferred Close) *)
-Fixpoint proxy_news (sharded : bool) (k : nat) (id : N) : list mop :=
-  match k with O => [] | S k' => MNew sharded id :: proxy_news sharded k' (id + 1) end.
-Fixpoint proxy_closes (k : nat) (m : nat) : list mop :=
-  match k with O => [] | S k' => MClose m :: MClose m :: proxy_closes k' (S m) end.
-Definition proxy_ops (nstores : nat) (sharded : bool) : list mop :=
-  proxy_news sharded nstores 0 ++ proxy_closes nstores 0.
+(* ---- C. requests over response sets ---------------------------------------------------- *)
+
+(* Where a response set (and with it its ShardMatcher) is closed; the call sites are pinned by
+   source facts (Proofs: close_sites_in_source):
+     loser tree, a sequence is exhausted   losertree.Tree.moveNext: t.close(n.items)
+     loser tree Close(), still open ones    losertree.Tree.Close: t.close(e.items)   (BucketStore.Series: defer lt.Close())
+     deferred Close of the proxy            ProxyStore.Series: defer respSet.Close()
+     error path of the store gateway        BucketStore.Series: resp.Close() for all response sets when a block fails
+   and a response set whose store refuses the stream is dropped with its matcher never closed
+   (newAsyncRespSet returns before any Close). Both retrieval strategies (lazyRespSet.Close,
+   eagerRespSet.Close) end in shardMatcher.Close(). *)
+Inductive close_site := CSExhausted | CSTreeClose | CSDeferred | CSErrorPath.
+
+(* events of any number of concurrent requests on one store (one buffer pool); pool operations
+   are atomic, so a concurrent execution is an interleaving of these events *)
+Inductive ev :=
+| EvOpen (req : nat) (sharded : bool) (got : N)       (* a response set of request req is created: Matcher(buffers) *)
+| EvOpenFail (req : nat) (sharded : bool) (got : N)   (* created, but the stream could not be opened: dropped unclosed *)
+| EvClose (req : nat) (k : nat) (site : close_site).  (* the k-th response set of request req is closed from that site *)
+
+Record pxstate := mkPx { px_m : mstate; px_sets : list (nat * list nat) }.  (* per request: matcher indices of its response sets *)
+
+Fixpoint sets_of (req : nat) (l : list (nat * list nat)) : list nat :=
+  match l with
+  | [] => []
+  | (r, ms) :: rest => if Nat.eqb r req then ms else sets_of req rest
+  end.
+
+Fixpoint add_set (req : nat) (m : nat) (l : list (nat * list nat)) : list (nat * list nat) :=
+  match l with
+  | [] => [(req, [m])]
+  | (r, ms) :: rest => if Nat.eqb r req then (r, ms ++ [m]) :: rest else (r, ms) :: add_set req m rest
+  end.
+
+(* None = the event is impossible (unknown response set, impossible buffer) *)
+Definition pxstep (fixed : bool) (st : pxstate) (e : ev) : option pxstate :=
+  match e with
+  | EvOpen req sharded got =>
+    match mstep fixed (px_m st) (MNew sharded got) with
+    | Some m' => Some (mkPx m' (add_set req (length (held (px_m st))) (px_sets st)))
+    | None => None
+    end
+  | EvOpenFail req sharded got =>
+    match mstep fixed (px_m st) (MNew sharded got) with
+    | Some m' => Some (mkPx m' (px_sets st))
+    | None => None
+    end
+  | EvClose req k _ =>
+    match nth_error (sets_of req (px_sets st)) k with
+    | Some m => match mstep fixed (px_m st) (MClose m) with
+                | Some m' => Some (mkPx m' (px_sets st))
+                | None => None
+                end
+    | None => None
+    end
+  end.
+
+Fixpoint pxrun (fixed : bool) (st : pxstate) (es : list ev) : option pxstate :=
+  match es with
+  | [] => Some st
+  | e :: r => match pxstep fixed st e with Some st' => pxrun fixed st' r | None => None end
+  end.
+
+Definition pxinit : pxstate := mkPx minit [].
+
+(* the canonical history of [reqs] proxy requests run one after the other over [nstores] stores
+   of which the first [nfail] refuse the stream: every opened response set is closed twice
+   (exhausted in the loser tree, then the deferred Close) *)
+Fixpoint px_opens (req : nat) (sharded : bool) (nfail k : nat) (id : N) : list ev :=
+  match k with
+  | O => []
+  | S k' => (if Nat.ltb 0 nfail then EvOpenFail req sharded id else EvOpen req sharded id)
+            :: px_opens req sharded (Nat.pred nfail) k' (id + 1)
+  end.
+Fixpoint px_closes (req : nat) (k : nat) (i : nat) : list ev :=
+  match k with
+  | O => []
+  | S k' => EvClose req i CSExhausted :: EvClose req i CSDeferred :: px_closes req k' (S i)
+  end.
+(* with the fix a later request finds the buffers of the earlier one in the pool; the canonical
+   history lets every request take fresh ones instead (sync.Pool may always do that) — the pool
+   content differs, whether a buffer is pooled twice does not *)
+Fixpoint px_requests (reqs : nat) (nstores nfail : nat) (sharded : bool) (req : nat) (id : N) : list ev :=
+  match reqs with
+  | O => []
+  | S r' => px_opens req sharded nfail nstores id ++ px_closes req (nstores - nfail) 0
+            ++ px_requests r' nstores nfail sharded (S req) (id + N.of_nat nstores)
+  end.
 
 Definition corr_ok (c : case) : bool :=
   match c with
@@ -174,9 +254,9 @@ Definition corr_ok (c : case) : bool :=
     | Some st => list_eqb N.eqb (sort_n (mpool st)) drained
     | None => false
     end
-  | CProxy k sharded dup =>
-    match mrun true minit (proxy_ops k sharded) with
-    | Some st => Bool.eqb dup (negb (nodup_n (mpool st)))
+  | CProxy reqs k nfail sharded dup =>
+    match pxrun true pxinit (px_requests reqs k nfail sharded 0 0) with
+    | Some st => Bool.eqb dup (negb (nodup_n (mpool (px_m st))))
     | None => false
     end
   end.
@@ -213,5 +293,5 @@ Definition pred_ok (c : case) : bool :=
        returned — hence is 0 once everything is returned *)
   | CShard ops drained => nodup_n (drained ++ somes (held_open ops []))
     (* no buffer sits in the pool twice, and none is both in the pool and held by an open matcher *)
-  | CProxy _ _ dup => negb dup
+  | CProxy _ _ _ _ dup => negb dup
   end.
